@@ -15,7 +15,7 @@ import ast
 from typing import Dict, List, Optional, Set, Tuple
 
 from ..model import Program, AnalysisError, FuncInfo, ClassInfo, walk_local, dotted
-from ..report import RuleResult
+from ..report import RuleResult, guard
 from ..astutil import src, site, calls_in, call_name, is_self_attr, is_super_call
 from ..callgraph import closure, resolve_call, Ctx
 from .c03 import eval_closure
@@ -1006,4 +1006,4 @@ def lazy_eval(prog: Program) -> RuleResult:
 
 
 def run(prog: Program, tier: str) -> List[RuleResult]:
-    return [lazy_build(prog), lazy_eval(prog), stream_lazy(prog)]
+    return [guard(lambda: lazy_build(prog)), guard(lambda: lazy_eval(prog)), guard(lambda: stream_lazy(prog))]
